@@ -14,6 +14,11 @@ pub struct C05;
 #[derive(Clone, Debug, Serialize, Deserialize)]
 pub struct Case {
     pub conv: Conversation,
+    /// the connection is upgraded to TLS first: SSL request carrying this sequence id, then the
+    /// conversation (handshake response with `conv.hs.seq` onwards) inside the session; the ids of
+    /// the decrypted server packets are what is checked
+    #[serde(default)]
+    pub over_tls: Option<u8>,
 }
 
 /// a program producing many packets: `rows` rows over `ncols` small columns
@@ -49,7 +54,7 @@ impl Prop for C05 {
         true
     }
     fn rule(&self) -> String {
-        "cases = C03-style conversations where every request (incl. the handshake response) carries a generated start sequence id (0 / 1 mostly, else uniform 0-255, with 254/255 favoured) and some programs produce 256-1100 response packets (hundreds of rows, or a 300-1000 column header; enumerated: 65536 and more rows); 1 conversation in 1500 contains a row of 17-70 MB laid out against the packet boundaries (cells of 1x, 2x, 3x the packet size, several of them per row, small cells in between), in either protocol; enumerated multi-fragment (>= 2^24-1 byte) requests so that the *last* request id matters. Oracle: greeting id 0; every reply's packets are last_request_id+1+i mod 256. Non-trivial = some response has > 255 packets, or some request id != 0, or a multi-fragment request, or a response message of 2^24-1 bytes or more (enumerated: a 16 MiB cell between ordinary rows, request ids 0 and 250).".into()
+        "cases = C03-style conversations where every request (incl. the handshake response) carries a generated start sequence id (0 / 1 mostly, else uniform 0-255, with 254/255 favoured) and some programs produce 256-1100 response packets (hundreds of rows, or a 300-1000 column header; enumerated: 65536 and more rows); 1 conversation in 1500 contains a row of 17-70 MB laid out against the packet boundaries (cells of 1x, 2x, 3x the packet size, several of them per row, small cells in between), in either protocol; enumerated multi-fragment (>= 2^24-1 byte) requests so that the *last* request id matters; 1 conversation in 20 is upgraded to TLS first (SSL request with the id below the handshake response's, or any id; a rustls client; one third of them with a shim that then refuses the client), and the ids of the decrypted server packets are checked the same way. Oracle: greeting id 0; every reply's packets are last_request_id+1+i mod 256. Non-trivial = some response has > 255 packets, or some request id != 0, or a multi-fragment request, or a response message of 2^24-1 bytes or more (enumerated: a 16 MiB cell between ordinary rows, request ids 0 and 250).".into()
     }
     fn assumptions(&self) -> Vec<String> {
         vec!["requests whose own fragments would wrap past id 255 are outside the domain (C20 covers them)".into()]
@@ -123,7 +128,17 @@ impl Prop for C05 {
                 }
             }
         }
-        Case { conv }
+        let mut over_tls = None;
+        if !big_layout && !g.fuzzing && matches!(conv.hs.kind, HsKind::V41 { .. }) && g.chance(1, 20) {
+            over_tls = Some(if g.chance(2, 3) { conv.hs.seq.wrapping_sub(1) } else { g.byte() });
+            if g.chance(1, 3) {
+                // ... and the shim refuses the client once it has seen who it is
+                conv.reject_auth = Some(3000 + g.below(100) as u32);
+            }
+            conv.sched = crate::transport::Schedule::all_at_once();
+            conv.lockstep = g.coin();
+        }
+        Case { conv, over_tls }
     }
     fn fixed(&self, tier: Tier) -> Vec<Case> {
         // multi-fragment requests: the reply continues after the LAST fragment's id
@@ -146,7 +161,7 @@ impl Prop for C05 {
                 );
                 conv.cmds[1].seq = seq;
                 conv.sched = crate::transport::Schedule::fixed(1 << 22);
-                v.push(Case { conv });
+                v.push(Case { conv, over_tls: None });
             }
         }
         // responses of more than 2^16 packets (the 8-bit id wraps hundreds of times)
@@ -158,7 +173,7 @@ impl Prop for C05 {
             let prog = Program { steps: vec![Step::Set { cols: vec![ColSpec::simple("a", T_LONG, 0)], rows, end: SetEnd::Finish }] };
             let mut conv = Conversation::new(vec![Cmd::Query { text: Blob::text("many") }, Cmd::Ping], vec![Action::Result(prog)]);
             conv.cmds[0].seq = [0u8, 201, 255][i];
-            v.push(Case { conv });
+            v.push(Case { conv, over_tls: None });
         }
         // a user-defined value type that flushes the writer it is handed (first cell of text rows):
         // nothing is buffered at that point, so the flush must not disturb the numbering
@@ -167,7 +182,7 @@ impl Prop for C05 {
             let prog = Program { steps: vec![Step::Set { cols: vec![ColSpec::simple("a", T_LONG, 0), ColSpec::simple("b", T_LONG, 0)], rows, end: SetEnd::Finish }] };
             let mut conv = Conversation::new(vec![Cmd::Query { text: Blob::text("flushy") }, Cmd::Ping], vec![Action::Result(prog)]);
             conv.cmds[0].seq = seq;
-            v.push(Case { conv });
+            v.push(Case { conv, over_tls: None });
         }
         // responses that contain a message of 2^24-1 bytes or more: the continuation packets
         // must keep counting (a text row: 1 + lenenc(3/4 bytes) + cell)
@@ -187,7 +202,7 @@ impl Prop for C05 {
                 };
                 let mut conv = Conversation::new(vec![Cmd::Query { text: Blob::text("big") }, Cmd::Ping], vec![Action::Result(prog)]);
                 conv.cmds[0].seq = seq;
-                v.push(Case { conv });
+                v.push(Case { conv, over_tls: None });
             }
         }
         v
@@ -198,6 +213,9 @@ impl Prop for C05 {
         if request_wraps(c) {
             ex.class("out-of-domain:request-fragments-wrap");
             return ex;
+        }
+        if let Some(req_seq) = case.over_tls {
+            return exec_tls(c, req_seq);
         }
         let o = run_with(c, None, false);
         let kinds: Vec<ReplyKind> = c.cmds.iter().map(|sc| sc.cmd.reply_kind()).collect();
@@ -251,4 +269,72 @@ impl Prop for C05 {
         }
         ex
     }
+}
+
+/// see `Case::over_tls`
+fn exec_tls(c: &Conversation, req_seq: u8) -> Exec {
+    use crate::tlspeer::*;
+    use crate::transport::*;
+    let mut ex = Exec::default();
+    ex.nontrivial = true;
+    ex.class("over-TLS");
+    let rejected = c.reject_auth.is_some();
+    if rejected {
+        ex.class("over-TLS:shim-refuses-the-client");
+    }
+    let fx = crate::tlsfix::fixtures();
+    let caps = match &c.hs.kind {
+        HsKind::V41 { caps, .. } => *caps,
+        _ => CAP_PROTOCOL_41,
+    };
+    let mut ssl_req = Vec::new();
+    frame_into(&mut ssl_req, &ssl_request(caps, 1 << 24, 0x21), req_seq);
+    let mut messages = Vec::new();
+    let mut m0 = Vec::new();
+    frame_into(&mut m0, &c.hs.payload(), c.hs.seq);
+    messages.push(m0);
+    let mut kinds = vec![ReplyKind::OkOrErr];
+    // (a refused client sends nothing more)
+    let cmds = if rejected { &c.cmds[..0] } else { &c.cmds[..] };
+    for sc in cmds {
+        let mut m = Vec::new();
+        frame_into(&mut m, &sc.cmd.payload(), sc.seq);
+        messages.push(m);
+        kinds.push(sc.cmd.reply_kind());
+    }
+    let (peer, log) = TlsClientPeer::new(client_config(req_seq % 2 == 0, false, 0), ssl_req, messages, kinds.clone(), c.lockstep);
+    let tr = Transport::new(Vec::new(), c.sched.clone(), Fault::None);
+    tr.0.borrow_mut().peer = Some(Box::new(peer));
+    let o = run_raw_tls(c, tr, Some(fx.server_plain.clone()));
+    let log = log.borrow();
+    if let RunResult::Panic(p) = &o.result {
+        ex.fail(format!("c05-panic|{}", panic_signature(p)), format!("run_on panicked: {}", o.result.brief()));
+        return ex;
+    }
+    if let Some(e) = &log.tls_error {
+        ex.fail("c05-tls-stream", format!("the TLS client rejects the server's byte stream: {} (run_on: {})", e, o.result.brief()));
+        return ex;
+    }
+    if rejected != o.result.is_err() {
+        ex.fail("c05-run-result", format!("run_on returned {} (client refused by the shim: {})", o.result.brief(), rejected));
+        return ex;
+    }
+    // the greeting went out in plaintext, everything after it inside the session
+    let (phys, _) = split_packets(&log.pre_tls);
+    let gend = phys.first().map(|p| p.start + p.len).unwrap_or(0);
+    let mut stream = log.pre_tls[..gend].to_vec();
+    stream.extend_from_slice(&log.decrypted);
+    let d = decode_output(&stream, &kinds[1..]);
+    if let Some(p) = &d.problem {
+        ex.fail("c05-nonconformant", format!("client decoder rejects the decrypted output: {}", p));
+        return ex;
+    }
+    let mut cc = c.clone();
+    if rejected {
+        cc.cmds.clear();
+    }
+    if let Err(m) = check_sequence_ids(&cc, &d) {
+        ex.fail("c05-sequence", format!("over TLS (SSL request id {}, encrypted response id {}): {}", req_seq, c.hs.seq, m));
+    }
+    ex
 }
